@@ -81,6 +81,14 @@ INCLUDE_TEXTS = ['include str(1/0);', 'include chr(300);', 'include substr("abc"
                  'begin include str(1/0); exception when others then nop; end;', 'include raw(1, 65);', 'include tab(1, "a");', 'include tup("a");']
 
 
+RECURSION_TEXTS = ['function f(n) return integer is begin return f(n + 1); end; print f(1);',
+                   'function f(n) return integer is begin return 1 + f(n + 1) + f(n + 2); end; x = f(1); print x;',
+                   'function g(n) return integer is begin return 0; end; function f(n) return integer is begin return g(n + 1); end; '
+                   'function g(n) return integer is begin return f(n + 1); end; print f(1);',
+                   'function f(n) return integer is begin begin return f(n + 1); exception when others then return f(n + 2); end; end; print f(1);',
+                   'function f(t) return integer is begin t.concat(1); return f(t); end; print f(tab(1, 1));']
+
+
 def classify_crash(r, big):
     """returns 'ood' for out-of-domain, else None"""
     s = r.sig or ""
@@ -410,6 +418,9 @@ class Sh:
             # statements that only a trusted context accepts (the bloc command's context is trusted): the path expression of
             # include is evaluated while parsing.  No file is read by these texts (the expression fails or names nothing).
             items = [(t, m, True) for t in INCLUDE_TEXTS for m in ("file", "stdin")]
+            # runaway recursion must end in the recursion-limit error, not in an exhausted native stack: given to the binary, which has no
+            # statement budget (in-process the budget would interrupt the program first)
+            items += [(t, m, None) for t in RECURSION_TEXTS for m in ("file", "stdin")]
             for i in range(n):
                 t = r.choice(base)
                 for _ in range(r.choice([0, 1, 2])):
@@ -420,7 +431,7 @@ class Sh:
             for t, mode, trusted in items:
                 tb = t.encode("utf-8", "replace")
                 # only texts that terminate in-process without interruption are given to the binary (it has no step budget)
-                ex = self.text_case(tb, "cpp", "program", trusted=trusted)
+                ex = True if trusted is None else self.text_case(tb, "cpp", "program", trusted=trusted)
                 if trusted:
                     for rt in ("capi", "istmt"): self.text_case(tb, rt, "program", trusted=True)
                 if ex is None:
